@@ -172,7 +172,7 @@ char ZCK_PUBLIC_API *zck_get_range_char(zckCtx *zck, zckRange *range) {
             free(output);
             return NULL;
         }
-        if(length > buf_size-loc) {
+        if(length >= buf_size-loc) {
             buf_size = (int)(buf_size * 1.5);
             output = zrealloc(output, buf_size);
             if (!output) {
@@ -185,6 +185,8 @@ char ZCK_PUBLIC_API *zck_get_range_char(zckCtx *zck, zckRange *range) {
         count++;
         ri = ri->next;
     }
+    if(loc == 0) // Empty range, nothing to remove
+        loc = 1;
     output[loc-1]='\0'; // Remove final comma
     output = zrealloc(output, loc);
     return output;
